@@ -511,6 +511,16 @@ func ParentMain(p *Prop, tier, verifDir, outDir string) int {
 		}
 	}
 	cov["monitor_observations"] = obs
+	ex := map[string]int64{}
+	for k, v := range obs {
+		if strings.HasPrefix(k, "exhaustive:") {
+			ex[strings.TrimPrefix(k, "exhaustive:")] = v
+		}
+	}
+	if len(ex) > 0 {
+		cov["exhaustive_small_scope"] = ex
+		cov["exhaustive_small_scope_note"] = "for each listed tree, configuration and key universe of k keys, EVERY state reachable from the empty tree by Put/Remove (states identified by a deep reflection fingerprint incl. unexported colour/balance fields) was visited and every one of the 2k calls was made from it under the monitors (':closed' = the exploration reached its fixed point); the rest of the run is sampled, so the top-level 'exhaustive' flag is not set"
+	}
 	cov["worker_processes"] = w
 	cov["slowest_case_ms"] = slowestMs
 	cov["slowest_case_index"] = slowestIdx
